@@ -305,7 +305,8 @@ def replay(ctx: Ctx, path: str) -> int:
         diffwork.init_worker(base)
         ver = tuple(det["version"])
         for native in (False, True):
-            st, msgs = diffwork.build_one(det["source"], native, ver, os.path.join(base, diffwork.cfg_name(native, ver)), det.get("flags"))
+            with norm.quiet_stderr():
+                st, msgs = diffwork.build_one(det["source"], native, ver, os.path.join(base, diffwork.cfg_name(native, ver)), det.get("flags"))
             print("native" if native else "default", st)
             for m in msgs:
                 print("   ", m)
